@@ -28,6 +28,17 @@ class SrcInfo:
         while i < n:
             l = lines[i]
             m = _struct_re.match(l)
+            if m and '{' not in l and ';' not in l and not l.strip().startswith('//'):
+                # header continues (generics / where clause): find the opening brace
+                k = i + 1
+                while k < n and '{' not in lines[k] and ';' not in lines[k]:
+                    k += 1
+                if k < n and '{' in lines[k]:
+                    i = k
+                    l = lines[k] + ' {'
+                    m2 = m
+                else:
+                    m = None
             if m and '{' in l and not l.strip().startswith('//'):
                 name = m.group(1)
                 fields = []
